@@ -20,6 +20,7 @@ CONSTANTS NW,        \* the largest threads_max used in a behaviour (workers are
           Chunk,     \* input given to the Block encoder per call (16384 bytes)
           Timeout, Spurious,
           MayFail,   \* BOOLEAN: a worker's Block encoder initialisation may fail (LZMA_MEM_ERROR)
+          MayFailMain, \* BOOLEAN: an allocation made by the main thread may fail (output buffer / filter copy in get_thread, a new thread, lzma_index_append, the Index encoder)
           Gives, Spaces,
           FlushActs, \* subset of {"FULL_FLUSH", "FULL_BARRIER"} the application may use
           HdrSz,     \* size of the Stream Header (1 unit in model checking, 12 bytes in traces)
@@ -147,6 +148,29 @@ EncIn ==
                  ELSE \* get_thread(): output buffer preallocated, filters_cache filled from coder->filters if it is empty
                       [m EXCEPT !.pc = "gtpop", !.cacheChain = IF m.cacheChain = -1 THEN m.chain ELSE m.cacheChain]
             ELSE [m EXCEPT !.pc = "decide"]
+
+\* An allocation of the main thread fails: stream_encode_mt() calls threads_stop(coder, false) and returns LZMA_MEM_ERROR
+MainFail(mm) == [mm EXCEPT !.rwRet = "MEM_ERROR", !.pc = "stop", !.loopI = 0]
+\* get_thread(): lzma_outq_prealloc_buf() or the copy of the filter chain fails (nothing has been changed yet)
+EncInFail ==
+    /\ MayFailMain /\ m.pc = "encin"
+    /\ (m.inAvail > 0 \/ (m.thr # 0 /\ m.act # "RUN")) /\ m.thr = 0 /\ m.bufsInUse < BufsLimit
+    /\ m' = MainFail(m) /\ UNCHANGED <<c, t>>
+\* initialize_new_thread() fails (thr->in, mutex, condition variable or the thread itself): threads_initialized unchanged
+GtCreateFail == MayFailMain /\ m.pc = "gtcreate" /\ m' = MainFail(m) /\ UNCHANGED <<c, t>>
+\* lzma_index_append() fails after a Block has been read completely (the buffer has left the queue already)
+BlkReadFailAppend ==
+    /\ MayFailMain /\ m.pc = "blkread" /\ c.threadErr = "OK" /\ c.outq # <<>> /\ c.outq[1].fin
+    /\ LET h == c.outq[1]
+           n == Min(h.osz - c.readPos, m.outSpace)
+       IN /\ c.readPos + n = h.osz
+          /\ c' = [c EXCEPT !.outq = Tail(c.outq), !.readPos = 0]
+          /\ m' = MainFail([m EXCEPT !.outSpace = @ - n, !.delivered = @ + n, !.progress = (m.progress \/ n > 0),
+                                     !.bufsInUse = @ - 1])
+          /\ UNCHANGED t
+\* lzma_index_encoder_init() fails when the Index is about to be written
+TailFail == /\ MayFailMain /\ m.pc = "run" /\ m.seq = "TAIL" /\ m.tailPos = 0
+            /\ m' = Ret(m, "MEM_ERROR") /\ UNCHANGED <<c, t>>
 
 \* get_thread(): coder.mutex, pop the free stack
 GtPop ==
@@ -425,6 +449,7 @@ Worker(w) == WTop(w) \/ WWake(w) \/ (\E f \in (IF MayFail THEN BOOLEAN ELSE {FAL
 
 Main == Run \/ BlkRead \/ EncIn \/ GtPop \/ GtCreate \/ GtStart \/ Copy \/ Publish \/ BlkErr \/ Decide \/ Wait \/ WaitWake
         \/ WaitTimeout \/ StopStep \/ EndSignal \/ EndJoin \/ RStop \/ RWait \/ RWaitWake \/ RQuiesceWake
+        \/ EncInFail \/ GtCreateFail \/ BlkReadFailAppend \/ TailFail
 
 App == \/ \E a \in {"RUN", "FINISH"} \cup FlushActs, g \in Gives, s \in Spaces : Call(a, Min(g, Total - m.given), s)
        \/ AppEnd \/ (\E nbs \in BSChoices, nnw \in NWChoices : AppReinit(nbs, nnw)) \/ GetProgress \/ FiltersUpdate
